@@ -854,6 +854,39 @@ package fzf
 //@ func ChunkList.Snapshot trusted
 //@ modifies *cl
 
+// Terminal.output (what accept prints): one line per selected item when there is a selection, otherwise the current
+// item if there is one; the return value - which becomes the exit status 0 / 1 - says whether an item was printed.
+// Lines for --print-query, --expect and the print queue are not items.  (ghost nitems: item lines printed.)
+//@ func Terminal.output
+//@ property C07
+//@ requires t != nil && t.printer != nil && t.merger != nil && mergerValid(t.merger)
+//@ ghost nitems int
+//@ ghost npq int
+//@ ghost nex int
+//@ ghost @"t.printer(string(t.input))" npq = npq + 1
+//@ ghost @"t.printer(t.pressed)" nex = nex + 1
+//@ assert @"t.printer(string(t.input))" nex == 0 && nitems == 0 -- the query line comes first
+//@ assert @"t.printer(t.pressed)" nitems == 0 -- the --expect line comes before the items
+//@ ensures npq == (t.printQuery ? 1 : 0) && nex == (len(t.expect) > 0 ? 1 : 0) -- with --expect the key line is printed even when it is empty
+//@ ghost @"t.printer(transform(current))" nitems = nitems + 1
+//@ ghost @"t.printer(transform(sel.item))" nitems = nitems + 1
+//@ effect call printer requires true
+//@ effect call transform requires arg0 != nil
+//@ modifies t.merger.merged, t.merger.cursors[*], t.merger.merged[len(t.merger.merged):cap(t.merger.merged)]
+//@ ensures result == (nitems > 0)
+//@ ensures old(len(t.selected)) > 0 ==> nitems == old(len(t.selected))
+//@ ensures old(len(t.selected)) == 0 ==> nitems <= 1
+//@ loop 1
+//@   writes nothing
+//@   invariant nitems == 0 && npq == (t.printQuery ? 1 : 0) && nex == (len(t.expect) > 0 ? 1 : 0)
+//@ loop 2
+//@   writes nothing
+//@   invariant nitems == iter && found && npq == (t.printQuery ? 1 : 0) && nex == (len(t.expect) > 0 ? 1 : 0)
+// (the selection in the order the items were selected: sort.Sort over a copy of the map's values - assumed)
+//@ func Terminal.sortSelected trusted
+//@ requires t != nil
+//@ ensures fresh(result) && len(result) == len(t.selected) && forall(k, 0, len(result), result[k].item != nil)
+
 // --ansi wiring: every input line goes through extractColor exactly once - also a line without any ESC byte, which
 // may still hold shift-in/out bytes or backspace overstrikes - and, with colours, the state returned for one line is
 // the state handed in for the next.
